@@ -461,6 +461,12 @@ package model
 //@             (*result)[k].Props != nil && !(*result)[k].Props.Disabled && (*result)[k].Bias != nil
 //@             && (*result)[k].Props.Name in *available && *(*result)[k].Bias == (*available)[(*result)[k].Props.Name]
 //@   ensures [at_most_requested] len(*result) <= len(*choose)
+//@   ensures [probability_as_requested_default_one] forall k int :: 0 <= k && k < len(*result) ==> exists j int :: 0 <= j && j < len(*choose)
+//@             && (*result)[k].Props.ApplyProbability == (decoded_has((*choose)[j], "ApplyProbability") ? decoded_real((*choose)[j], "ApplyProbability") : 1.0)
+//@             && (*result)[k].Props.Name == (decoded_has((*choose)[j], "Name") ? decoded_str((*choose)[j], "Name") : "")
+//@   loop 1 invariant [probability_as_requested_default_one] forall k int :: 0 <= k && k < len(result) ==> exists j int :: 0 <= j && j < iter
+//@             && result[k].Props.ApplyProbability == (decoded_has((*choose)[j], "ApplyProbability") ? decoded_real((*choose)[j], "ApplyProbability") : 1.0)
+//@             && result[k].Props.Name == (decoded_has((*choose)[j], "Name") ? decoded_str((*choose)[j], "Name") : "")
 //@   loop 1 invariant [enabled_known_biases] forall k int :: 0 <= k && k < len(result) ==>
 //@             result[k].Props != nil && !result[k].Props.Disabled && result[k].Bias != nil
 //@             && result[k].Props.Name in *available && *result[k].Bias == (*available)[result[k].Props.Name]
@@ -641,3 +647,24 @@ package model
 //@   loop 1 invariant [ctx] *r == old(*r) && 0 <= i && j == len(*r) - 1 - i && i <= j + 1
 //@   loop 1 invariant [swapped] forall k int :: 0 <= k && k < len(*r) && (k < i || k > j) ==> (*r)[k] == old((*r)[len(*r) - 1 - k])
 //@   loop 1 invariant [middle] forall k int :: i <= k && k <= j ==> (*r)[k] == old((*r)[k])
+
+// ---- importance by cumulated values (weighted sum, owa, satisfaction listeners): sums over the CONSIDERED alternatives (C15)
+//@ spec cumw(alts []AlternativeWithCriteria, q string, n int, f func(string, real) real) real =
+//@      n <= 0 ? 0.0 : cumw(alts, q, n - 1, f) + (q in alts[n - 1].Criteria ? apply(f, q, alts[n - 1].Criteria[q]) : 0.0)
+
+//@ func PrepareCumulatedWeightsMap
+//@   property C15
+//@   fnparam mapper pure
+//@   ensures [sums_over_considered_alternatives] fresh(result) && fresh(*result) && forall q string :: (q in *result ==> (*result)[q] == old(cumw(params.ConsideredAlternatives, q, len(params.ConsideredAlternatives), mapper)))
+//@             && (!(q in *result) ==> old(cumw(params.ConsideredAlternatives, q, len(params.ConsideredAlternatives), mapper)) == 0.0)
+//@   ensures [covers_criteria] forall k int :: 0 <= k && k < len(params.Criteria) ==> params.Criteria[k].Id in *result
+//@   loop 1 invariant [ctx] fresh(weights) && weights != nil
+//@   loop 1 invariant [zeroed] (forall q string :: q in weights ==> weights[q] == 0.0) && forall k int :: 0 <= k && k < iter ==> params.Criteria[k].Id in weights
+//@   loop 2 invariant [ctx] fresh(weights) && weights != nil && forall k int :: 0 <= k && k < len(params.Criteria) ==> params.Criteria[k].Id in weights
+//@   loop 2 invariant [sums] forall q string :: (q in weights ==> weights[q] == old(cumw(params.ConsideredAlternatives, q, iter, mapper)))
+//@             && (!(q in weights) ==> old(cumw(params.ConsideredAlternatives, q, iter, mapper)) == 0.0)
+//@   loop 3 invariant [ctx] fresh(weights) && weights != nil && (forall k int :: 0 <= k && k < len(params.Criteria) ==> params.Criteria[k].Id in weights)
+//@             && 0 <= iter2 - 1 && iter2 - 1 < len(params.ConsideredAlternatives) && a == params.ConsideredAlternatives[iter2 - 1]
+//@   loop 3 invariant [added] forall q string :: seen(q) ==> q in a.Criteria && q in weights && weights[q] == old(cumw(params.ConsideredAlternatives, q, iter2, mapper))
+//@   loop 3 invariant [pending] forall q string :: !seen(q) ==> (q in weights ==> weights[q] == old(cumw(params.ConsideredAlternatives, q, iter2 - 1, mapper)))
+//@             && (!(q in weights) ==> old(cumw(params.ConsideredAlternatives, q, iter2 - 1, mapper)) == 0.0)
